@@ -119,10 +119,23 @@ type funcDefs struct {
 	defs    map[types.Object][]ast.Expr
 	rangeOf map[types.Object]ast.Expr // variable is the value var of range over expr
 	tupleOf map[types.Object]ast.Expr // variable defined from a multi-value call
+	tupleIx map[types.Object]int      // ... as its i-th result
 }
 
 func (w *World) defsOf(fi *FuncInfo) *funcDefs {
-	fd := &funcDefs{defs: map[types.Object][]ast.Expr{}, rangeOf: map[types.Object]ast.Expr{}, tupleOf: map[types.Object]ast.Expr{}}
+	if fd, ok := w.defsMemo[fi]; ok {
+		return fd
+	}
+	fd := w.defsOfUncached(fi)
+	if w.defsMemo == nil {
+		w.defsMemo = map[*FuncInfo]*funcDefs{}
+	}
+	w.defsMemo[fi] = fd
+	return fd
+}
+
+func (w *World) defsOfUncached(fi *FuncInfo) *funcDefs {
+	fd := &funcDefs{defs: map[types.Object][]ast.Expr{}, rangeOf: map[types.Object]ast.Expr{}, tupleOf: map[types.Object]ast.Expr{}, tupleIx: map[types.Object]int{}}
 	info := fi.Pkg.TypesInfo
 	objOf := func(e ast.Expr) types.Object {
 		id, ok := e.(*ast.Ident)
@@ -157,10 +170,11 @@ func (w *World) defsOf(fi *FuncInfo) *funcDefs {
 					}
 				}
 			} else if len(s.Rhs) == 1 {
-				for _, l := range s.Lhs {
+				for i, l := range s.Lhs {
 					if o := objOf(l); o != nil {
 						fd.defs[o] = append(fd.defs[o], s.Rhs[0])
 						fd.tupleOf[o] = s.Rhs[0]
+						fd.tupleIx[o] = i
 					}
 				}
 			}
@@ -207,6 +221,7 @@ func (w *World) defsOf(fi *FuncInfo) *funcDefs {
 // exprAtoms computes the atoms of e inside function fi. Single-return repo helpers
 // are inlined up to depth 2.
 func (w *World) exprAtoms(fi *FuncInfo, e ast.Expr) *Atoms {
+	fi = w.ownerOf(fi, e)
 	a := newAstAtoms()
 	w.atomsInto(fi, w.defsOf(fi), e, a, map[ast.Node]bool{}, 0)
 	return a
@@ -255,7 +270,23 @@ func (w *World) atomsInto(fi *FuncInfo, fd *funcDefs, e ast.Expr, a *Atoms, seen
 			}
 			if ds := fd.defs[o]; len(ds) > 0 {
 				for _, d := range ds {
+					if tc, isTuple := fd.tupleOf[o]; isTuple && tc == d {
+						if call, ok := d.(*ast.CallExpr); ok {
+							if name := calleeOfCall(info, call); name != "" && w.isNewName(name) {
+								// i-th result of a new function: that result only
+								w.atomsOfNewCall(w.Funcs[name], fd.tupleIx[o], a, depth)
+								continue
+							}
+						}
+					}
 					w.atomsInto(fi, fd, d, a, seen, depth+1)
+				}
+				return
+			}
+			// parameter of a new function: what its call sites pass
+			if sites, exprs, ok := w.argsBoundTo(o); ok && depth < 30 {
+				for i, s := range sites {
+					w.atomsInto(s.Fi, w.defsOf(s.Fi), exprs[i], a, seen, depth+3)
 				}
 				return
 			}
@@ -298,6 +329,10 @@ func (w *World) atomsInto(fi *FuncInfo, fd *funcDefs, e ast.Expr, a *Atoms, seen
 			// dynamic call through a value
 			a.Ops["dyncall"] = true
 			w.atomsInto(fi, fd, x.Fun, a, seen, depth+1)
+		} else if w.isNewName(name) && depth < 30 {
+			// a new function: looked through (results; parameters are bound to call-site
+			// arguments when reached), not recorded as a call
+			w.atomsOfNewCall(w.Funcs[name], -1, a, depth)
 		} else if tgt := w.inlinable(name); tgt != nil && depth < 20 {
 			// inline: atoms of the single returned expression, with params as idents
 			// then the arguments' atoms (flow through parameters is over-approximated
@@ -370,6 +405,17 @@ func (w *World) atomsInto(fi *FuncInfo, fd *funcDefs, e ast.Expr, a *Atoms, seen
 	}
 }
 
+// atomsOfNewCall adds the atoms of what a new function returns (result idx, or all).
+func (w *World) atomsOfNewCall(tgt *FuncInfo, idx int, a *Atoms, depth int) {
+	if tgt == nil {
+		return
+	}
+	tfd := w.defsOf(tgt)
+	for _, e := range resultExprs(tgt, idx) {
+		w.atomsInto(tgt, tfd, e, a, map[ast.Node]bool{}, depth+5)
+	}
+}
+
 // inlinable: a gleece function whose body is exactly `return <expr>`.
 func (w *World) inlinable(name string) *FuncInfo {
 	fi := w.Funcs[name]
@@ -395,6 +441,14 @@ type sinkExpr struct {
 // (types.Named) in function fi: composite-literal elements and assignments x.F = e
 // (also x.F = append(x.F, e): the appended values).
 func (w *World) fieldSinks(fi *FuncInfo, owner *types.Named, field string) []sinkExpr {
+	var out []sinkExpr
+	for _, f := range w.astRegion(fi) {
+		out = append(out, w.fieldSinksLocal(f, owner, field)...)
+	}
+	return out
+}
+
+func (w *World) fieldSinksLocal(fi *FuncInfo, owner *types.Named, field string) []sinkExpr {
 	var out []sinkExpr
 	info := fi.Pkg.TypesInfo
 	isOwner := func(t types.Type) bool {
